@@ -282,9 +282,9 @@ def r3(ctx):
     an = repo.func('hotspot', 'analyze')
     hc = find_all('subf[typ] = subf[typ][:, :, :dT.shape[1]]', an.node, 'stmt')
     hk = find_all('dT = _get_peak_dt(r_obj, asm_name, k)', an.node, 'stmt')
+    # (keyword arguments are normalised to positional by the loader)
     hs = find_all("calculate_temps(r_obj.inlet_temp, dT, subf, "
-                  "IN_sigma=hs[k]['input_sigma'], "
-                  "OUT_sigma=hs[k]['output_sigma'])", an.node)
+                  "hs[k]['input_sigma'], hs[k]['output_sigma'])", an.node)
     ctx.require(bool(hc and hk and hs), 'C19.R3', an,
                 hs[0][0] if hs else an.node,
                 'analysis must use the rises of the same key, crop the '
